@@ -237,13 +237,15 @@ def check_mutant(ctx, node, base, mut, names, avail):
 def pieces(j, limit):
     """Cover of the tree by subtrees whose encoding is at most `limit` bytes (the whole tree if limit is None);
     consecutive small children of an oversize node are validated together as one sequence."""
-    from pytezos.michelson.forge import forge_micheline
-    if limit is None or len(forge_micheline(j)) <= limit:
+    def flen(x):
+        f = impl_forge(x)
+        return len(f[1]) if f[0] == 'ok' else 0
+    if limit is None or flen(j) <= limit:
         return [j], 0
     kids = j if isinstance(j, list) else j.get('args', [])
     out, spine, pack, packed = [], 1, [], 0
     for k in kids:
-        n = len(forge_micheline(k))
+        n = flen(k)
         if n > limit or packed + n > limit:
             if pack:
                 out.append(pack)
@@ -287,7 +289,6 @@ def validate_cases(ctx, cases, sig='C05:trace'):
 
 
 def leg_c(ctx, names):
-    from pytezos.michelson.forge import forge_micheline, unforge_micheline
     tag = {n: i for i, n in enumerate(names)}
     limit = 2500 if ctx.quick else None
     cases, nodes, spine = [], 0, 0
@@ -301,10 +302,15 @@ def leg_c(ctx, names):
             ps, s = pieces(script[sec], limit)
             spine += s
             for k, p in enumerate(ps):
-                b = forge_micheline(p)
-                back = unforge_micheline(b)
-                if back != p:
-                    ctx.mismatch('C05:script:roundtrip', 'unforge(forge(x)) differs from x for a subtree of %s %s' % (name, sec), {'kind': 'script', 'file': f, 'sec': sec, 'piece': k})
+                case = {'kind': 'script', 'file': f, 'sec': sec, 'piece': k}
+                fb = impl_forge(p)
+                if fb[0] != 'ok':
+                    ctx.mismatch('C05:script:forge:raises:' + fb[1], 'forge_micheline raised %s on a subtree of %s %s' % (fb[1], name, sec), case)
+                    continue
+                b = fb[1]
+                back = impl_unforge(b)
+                if back != ('ok', p):
+                    ctx.mismatch('C05:script:roundtrip', 'unforge(forge(x)) %s for a subtree of %s %s' % ('raised ' + back[1] if back[0] != 'ok' else 'differs from x', name, sec), case)
                 cases.append({'id': '%s:%s:%d' % (name, sec, k), 'node': to_node(p, tag), 'bytes': list(b)})
                 n = size(p)
                 nodes += n
